@@ -22,10 +22,13 @@
 
 using namespace vh;
 
-static const char *NAMES[] = {"", "a", "ab", "abc", "b", "ba", "bar", "baz", "foo", "qux", "x1", "zz"};
-static const int NNAMES = 12;
-static const char *REGEXES[] = {".*", "a.*", "ba[rz]", "b.*", "(foo|qux)", ".", "ab?c?", "[a-f].*", ".+z", "x1|zz|a", "b", "q"};
-static const int NREGEX = 12;
+// level names are arbitrary strings: the last two contain a NUL byte (a regex level is a full match on the whole name)
+static const std::string NAMES[] = {"", "a", "ab", "abc", "b", "ba", "bar", "baz", "foo", "qux", "x1", "zz",
+                                    std::string("zz\0", 3), std::string("zz\0y", 4)};   // (ids follow the byte-wise order of the names)
+static const int NNAMES = 14;
+static const char *REGEXES[] = {".*", "a.*", "ba[rz]", "b.*", "(foo|qux)", ".", "ab?c?", "[a-f].*", ".+z", "x1|zz|a", "b", "q",
+                                "zz", "zz.y", "zz."};
+static const int NREGEX = 15;
 
 static std::string enc(int64_t v) { return "value-" + std::to_string(v) + "-" + std::string(40, 'x'); }
 static int64_t dec(const std::string &s) {
